@@ -11,11 +11,47 @@ SUITE = json.load(open(os.path.join(HERE, "fixtures", "suite_frames.json")))
 hexcase = st.sampled_from(["U", "L", "M"])
 
 
+_M = (1 << 64) - 1
+
+
+def mix64(s):
+    """splitmix64 finaliser: a bijection on 64-bit integers with good avalanche."""
+    z = (s + 0x9E3779B97F4A7C15) & _M
+    z = ((z ^ (z >> 30)) * 0xBF58476D1CE4E5B9) & _M
+    z = ((z ^ (z >> 27)) * 0x94D049BB133111EB) & _M
+    return z ^ (z >> 31)
+
+
+def spread(seed, n):
+    """n pseudo-random bits as a pure function of a 64-bit seed."""
+    v = 0
+    k = 0
+    got = 0
+    while got < n:
+        v = (v << 64) | mix64((seed + k * 0xD1342543DE82EF95) & _M)
+        k += 1
+        got += 64
+    return v >> (got - n)
+
+
+_SEEDS = st.integers(0, _M)
+
+
 def ubits(n):
     """Uniform n-bit integers.  st.integers() on a wide range is heavily biased towards small magnitudes
-    (measured: 2 of 750 long frames started with nibble 5), so the value is a PRNG image of a
-    Hypothesis-drawn 64-bit seed: still replayable and owned by Hypothesis, but uniform."""
-    return st.integers(0, 2 ** 64 - 1).map(lambda s: random.Random(s).getrandbits(n))
+    (measured: 2 of 750 long frames started with nibble 5), so the value is the splitmix image of a
+    Hypothesis-drawn 64-bit seed: still owned, replayed and shrunk by Hypothesis, but uniform."""
+    return _SEEDS.map(lambda s: spread(s, n))
+
+
+def ufloat(a, b):
+    """Uniform float in [a, b) (same construction)."""
+    return _SEEDS.map(lambda s: a + (b - a) * (mix64(s) >> 11) / 9007199254740992.0)
+
+
+def uint(a, b):
+    """Uniform integer in [a, b]."""
+    return _SEEDS.map(lambda s: a + mix64(s) % (b - a + 1))
 
 
 def bits(n):
